@@ -89,6 +89,10 @@ Definition run_srv1 (op : Z) (a : args) : args :=
              (do x <- pfe_new (int 0 0 a) (int 0 1 a); do y <- pfe_new (int 0 2 a) (int 0 3 a);
               Ok (pfe_eqb x y))
   | 716 => ret (fun b => [b]) (do f <- pfe_unpack (lst 0 a) (int 1 0 a); pfe_pack f)
+  (* PacketFieldU8 / U16 / U32 (val): a0 = [1|2|4; val] *)
+  | 717 => ret (fun r => [fst r; [snd r]])
+             (do f <- pfe_new (int 0 0 a * 8) (int 0 1 a);
+              do b <- pfe_pack f; do n <- pfe_len f; Ok (b, n))
   (* ---- FailureNotice ---- *)
   | 720 => ret (fun r => [fst r; [snd r]])
              (do c <- pfe_new (int 0 0 a) (int 0 1 a);
@@ -108,6 +112,8 @@ Definition run_srv1 (op : Z) (a : args) : args :=
   | 730 => ret (fun _ => [[0]]) (do v <- vp_of_args 0 a; vp_verify v (int 4 0 a))
   | 731 => ret (fun r => [fst r; [snd r]])
              (do v <- vp_of_args 0 a; do b <- vp_pack v; do n <- vp_len v; Ok (b, n))
+  (* == of two VerificationParams objects: a0..a3 and a4..a7 *)
+  | 732 => ret (fun b => [[b2z b]]) (do x <- vp_of_args 0 a; do y <- vp_of_args 4 a; vp_eq x y)
   (* ---- Service1Tm ---- *)
   | 740 => ret srv1_fields (srv1_of_args a)
   | 741 => ret (fun r => [fst r; [tm_packet_len (s1_tm (snd r))]] ++ vp_fields (s1_vp (snd r)))
@@ -133,6 +139,9 @@ Definition run_srv1 (op : Z) (a : args) : args :=
   | 747 => ret (fun o => [of_opt_pfe o]) (do s <- srv1_of_args a; srv1_error_code s)
   | 748 => ret (fun o => [of_opt_pfe o])
              (do u <- srv1_unpack (lst 0 a) (params_of (lst 1 a)); srv1_error_code u)
+  (* == of two independently built reports: a0..a5 and a6..a11 *)
+  | 749 => ret (fun b => [[b2z b]])
+             (do x <- srv1_of_args a; do y <- srv1_of_args (skipn 6 a); srv1_eq x y)
   (* ---- Spec side (independent oracle) ---- *)
   | 750 => let h := sph_of_reqid_fields (lst 0 a) in [[0]; reqid_layout h; [reqid_u32 h]]
   | 751 => [[0]; srv1_src_layout (sph_of_reqid_fields (lst 0 a)) (opt_pair (lst 1 a))
